@@ -17,6 +17,8 @@ SPEC = {
         "Sema.C09.C09_shared_unsafe_w1",
         "Sema.C09.C09_shared_unsafe_w2a",
         "Sema.C09.C09_shared_unsafe_w2b",
+        "Sema.C09.C09_handoff_needed",
+        "Sema.C09.C09_partial_coherent",
         "Sema.C09.C09_cache_protocol_pinned",
     ],
     "trusted_base": [
